@@ -22,7 +22,7 @@ ASSUMPTIONS = simnet.ASSUMPTIONS + [
     "for the return value",
 ]
 
-ENDINGS = ("reconnect-then-close", "reply-fails-then-reconnect", "close0", "close2", "close-reason", "eof", "reset", "proto", "badutf8", "pingtimeout", "refused", "rejected",
+ENDINGS = ("reconnect-then-close", "reply-fails-then-reconnect", "close0", "close2", "close-reason", "eof", "reset", "proto", "badutf8", "pingtimeout", "pingtimeout-chatty", "refused", "rejected",
            "close-in-open", "close-in-message", "close-in-ping", "close-in-data", "kbd-in-message")
 
 
@@ -31,6 +31,9 @@ def _traffic(n, tag=""):
     for i in range(n):
         out.append((1, server_frame(1, 2, sx.sym_bytes("t%s%d" % (tag, i), 1))))
     return out
+
+
+CHATTER = 40
 
 
 def _spec_for(ending, ntraffic, tag=""):
@@ -78,6 +81,13 @@ def _spec_for(ending, ntraffic, tag=""):
         script.append((1, server_frame(1, 1, b"\xff")))
     elif ending == "pingtimeout":
         rf = dict(ping_interval=5, ping_timeout=2)
+    elif ending == "pingtimeout-chatty":
+        # the peer never answers a ping but keeps sending: a server ping every second for CHATTER seconds, so the loop's select never
+        # times out.  The run must end through the ping timeout WHILE the peer is still talking (against an endless talker it would
+        # otherwise never end): see _check_run's caller
+        rf = dict(ping_interval=5, ping_timeout=2)
+        for _ in range(CHATTER):
+            script.append((1, server_frame(1, 9, b"")))
     elif ending == "refused":
         outcomes = {0: "refused"}
     elif ending == "rejected":
@@ -161,6 +171,11 @@ def t_end(ending, ntraffic, second=None, tls=False, ping=False):
         sx.require(False, "run_forever never returns (blocked forever)", what=ending)
         return
     _check_run(run, exp_args, exp_err, ending)
+    if ending == "pingtimeout-chatty":
+        cl = run.of("on_close")
+        sx.require(len(cl) == 1 and bool(cl[0][1] < run.k.t0 + ntraffic + CHATTER - 5),
+                   "a peer that never answers pings but keeps sending does not keep the run alive: it ends through the ping timeout while the "
+                   "peer is still talking", ended=str(cl[0][1] - run.k.t0) if cl else None)
     cover("end-" + ending)
     if second is None:
         return
@@ -251,13 +266,13 @@ def obligations(tier):
         for n in ((0, 1, 2, 3) if thorough else (0, 1, 2)):
             ends.append(dict(ending=e, ntraffic=n))
         ends.append(dict(ending=e, ntraffic=1, tls=True))
-        if e not in ("pingtimeout", "reconnect-then-close", "reply-fails-then-reconnect"):
+        if e not in ("pingtimeout", "pingtimeout-chatty", "reconnect-then-close", "reply-fails-then-reconnect"):
             ends.append(dict(ending=e, ntraffic=2, ping=True))
             if thorough:
                 ends.append(dict(ending=e, ntraffic=3, ping=True, tls=True))
     if thorough:
-        seconds = [dict(ending=e, ntraffic=n, second=s) for e in ENDINGS if e not in ("kbd-in-message", "reconnect-then-close", "reply-fails-then-reconnect") for n in (0, 1)
-                   for s in ENDINGS if s not in ("kbd-in-message", "reconnect-then-close", "reply-fails-then-reconnect")]
+        seconds = [dict(ending=e, ntraffic=n, second=s) for e in ENDINGS if e not in ("kbd-in-message", "reconnect-then-close", "reply-fails-then-reconnect", "pingtimeout-chatty") for n in (0, 1)
+                   for s in ENDINGS if s not in ("kbd-in-message", "reconnect-then-close", "reply-fails-then-reconnect", "pingtimeout-chatty")]
     else:
         seconds = [dict(ending=e, ntraffic=0, second=s) for e in ("close0", "eof", "proto", "refused", "close-in-message", "pingtimeout", "rejected")
                    for s in ("close0", "eof", "close2") if s != "close2" or e in ("eof", "close0")]
